@@ -1182,9 +1182,9 @@ impl FatVolume {
             };
         debug!("Next free cluster is {:?}", self.next_free_cluster);
         // Record that we've allocated a cluster
-        if let Some(ref mut number_free_cluster) = self.free_clusters_count {
-            *number_free_cluster -= 1;
-        };
+        // The count comes from the info sector and may be stale; if it can't be
+        // decremented it was wrong, so stop trusting it.
+        self.free_clusters_count = self.free_clusters_count.and_then(|n| n.checked_sub(1));
         if zero {
             let start_block_idx = self.cluster_to_block(new_cluster);
             let num_blocks = BlockCount(u32::from(self.blocks_per_cluster));
